@@ -204,6 +204,13 @@ class GeminiClient:
             # If TOFU is enabled, verify the certificate
             if self.tofu_db:
                 cert = protocol.get_peer_certificate()
+                if cert is None:
+                    # No certificate, or one we cannot parse: it cannot be
+                    # checked against the pin, so it must not be trusted
+                    raise ConnectionError(
+                        f"Cannot verify certificate of {parsed.hostname}:{parsed.port}: "
+                        "peer certificate is missing or unreadable"
+                    )
                 if cert:
                     is_valid, message = self.tofu_db.verify(
                         parsed.hostname, parsed.port, cert
@@ -399,6 +406,13 @@ class GeminiClient:
             # If TOFU is enabled, verify the certificate
             if self.tofu_db:
                 cert = protocol.get_peer_certificate()
+                if cert is None:
+                    # No certificate, or one we cannot parse: it cannot be
+                    # checked against the pin, so it must not be trusted
+                    raise ConnectionError(
+                        f"Cannot verify certificate of {parsed.hostname}:{parsed.port}: "
+                        "peer certificate is missing or unreadable"
+                    )
                 if cert:
                     is_valid, message = self.tofu_db.verify(
                         parsed.hostname, parsed.port, cert
